@@ -203,3 +203,30 @@ Proof.
   intros E shares before b Hb. subst shares. unfold reassignByRole. simpl. rewrite E.
   exact (rrun_least_loaded sroles leaderRoles p a s b Hb).
 Qed.
+
+(* ------------------------------------------------------------------ survivingPeersExcept *)
+Lemma survivors_spec peers target x :
+  In x (survivingPeersExcept peers target) <-> In x peers /\ x <> target.
+Proof.
+  unfold survivingPeersExcept. rewrite filter_In. rewrite negb_true_iff, N.eqb_neq. tauto.
+Qed.
+
+(* removing one failed target and then another does not depend on the order: the second redistribution
+   sees exactly the peers other than its own target *)
+Lemma survivors_commute peers t1 t2 :
+  survivingPeersExcept (survivingPeersExcept peers t1) t2 = survivingPeersExcept (survivingPeersExcept peers t2) t1.
+Proof.
+  unfold survivingPeersExcept. induction peers as [|p r IH]; simpl; auto.
+  destruct (N.eqb p t1) eqn:E1, (N.eqb p t2) eqn:E2; simpl; rewrite ?E1, ?E2; simpl; congruence.
+Qed.
+
+Lemma survivors_NoDup_length peers target : NoDup peers -> In target peers ->
+  S (length (survivingPeersExcept peers target)) = length peers.
+Proof.
+  unfold survivingPeersExcept. induction peers as [|p r IH]; simpl; intros Hn Hin; [tauto|].
+  inversion Hn; subst. destruct (N.eqb_spec p target) as [->|Hne]; simpl.
+  - f_equal. clear IH Hin Hn H2. induction r as [|q r IH]; simpl; auto.
+    destruct (N.eqb_spec q target) as [->|]; simpl; [exfalso; apply H1; simpl; auto|].
+    f_equal. apply IH. intros H. apply H1. simpl. auto.
+  - f_equal. apply IH; auto. destruct Hin; [congruence|assumption].
+Qed.
